@@ -140,7 +140,6 @@ class SchemaValidator:
                 or _is_valid_name(type_.name)
             ):
                 self.add_error('Invalid type name "%s"' % type_.name)
-                continue
 
             if isinstance(type_, ObjectType):
                 self.validate_fields(type_)
@@ -202,7 +201,6 @@ class SchemaValidator:
                         'Duplicate argument "%s" on directive "@%s"'
                         % (arg.name, directive.name)
                     )
-                    continue
 
                 if not is_input_type(arg.type):
                     self.add_error(
@@ -231,7 +229,6 @@ class SchemaValidator:
                     'Duplicate field "%s" on "%s"'
                     % (field.name, composite_type)
                 )
-                continue
 
             if not is_output_type(field.type):
                 self.add_error(
@@ -250,7 +247,6 @@ class SchemaValidator:
                     self.add_error(
                         'Duplicate argument "%s" on "%s"' % (arg.name, path)
                     )
-                    continue
 
                 if not is_input_type(arg.type):
                     self.add_error(
@@ -437,7 +433,6 @@ class SchemaValidator:
                     'Interface field "%s" expects type "%s" but "%s" is type "%s"'
                     % (interface_path, field.type, obj_path, object_field.type)
                 )
-                continue
 
             for arg in field.arguments:
                 object_arg = object_field.argument_map.get(arg.name, None)
@@ -531,7 +526,6 @@ class SchemaValidator:
                 self.add_error(
                     'Duplicate field "%s" on "%s"' % (field.name, input_object)
                 )
-                continue
 
             if not is_input_type(field.type):
                 self.add_error(
